@@ -99,6 +99,7 @@ class RunSpec(Spec):
     def profile(self, rng, idx, tier):
         return dict(self.base_profile)
 
+    reuse_every = None  # every n-th case runs two trees from the same configuration objects (see harness.run_reuse_pair)
     soak_every = None  # thorough tier: every n-th case is a long run (30-80 metaepochs, churning stop conditions)
 
     def make_case(self, seed, idx, tier):
@@ -111,17 +112,48 @@ class RunSpec(Spec):
             prof = dict(prof)
             prof.update({"gsc": "melimit", "max_pop": 10, "max_gens": 2, "lscs": ["user", "melimit", "user", "dontstop"], "dim": (2, 2)})
             prof.pop("gscs", None)
+        reuse = self.reuse_every and idx % self.reuse_every == self.reuse_every - 1 and not soak
+        if reuse:
+            prof = dict(prof)
+            prof.update({"allow_cutoff": False, "entry": "tree"})
+            if prof.get("gsc") in ("precision", "dontrun"):
+                prof["gsc"] = "melimit"
         d = gen.gen_tree_case(rng, prof)
         if soak:
             d["gsc"] = {"k": "melimit", "n": rng.randint(30, 80)}
             d["soak"] = True
+        if reuse and d["gsc"]["k"] not in ("precision",):
+            d["reuse"] = True
         return d
 
     def run_case(self, desc):
-        from . import harness
+        return run_desc(desc, lambda: [m() for m in self.monitors])
 
-        ctx = harness.run_case(desc, [m() for m in self.monitors])
-        return run_result(ctx, desc)
+
+def run_desc(desc, make_monitors):
+    """Run one tree descriptor under fresh monitors; `reuse` descriptors run two trees from the same configuration
+    objects (both monitored) and merge what was observed."""
+    from . import harness
+
+    if desc.get("reuse") and desc.get("kind", "tree") != "minimize":
+        c1, c2 = harness.run_reuse_pair(desc, make_monitors)
+        res = run_result(c1, desc)
+        r2 = run_result(c2, c2.desc)
+        res["cov"].update(r2["cov"])
+        res["cov"]["reuse_pairs"] += 1
+        if not c2.aborted:
+            res["cov"]["reuse_pairs_second_tree_completed"] += 1
+        for v in r2["violations"]:
+            v = dict(v)
+            v["detail"] = dict(v.get("detail", {}), second_tree_of_a_reused_configuration=True)
+            res["violations"].append(v)
+        res["nontrivial"].extend(r2["nontrivial"])
+        res["sample"]["reused_configuration"] = {"second_tree": r2["sample"]["observed"]}
+        if r2.get("aborted") and not res.get("aborted"):
+            res["aborted"] = "second-tree:" + r2["aborted"]
+        return res
+    ctx = harness.run_case(desc, make_monitors())
+    return run_result(ctx, desc)
 
 
 def _cycle(seq, idx, stride=1):
@@ -200,8 +232,36 @@ class C02(RunSpec):
             p = {"kind": "minimize", "fams": p["fams"], "dim": (2, 4)}
         return p
 
+    def make_case(self, seed, idx, tier):
+        d = super().make_case(seed, idx, tier)
+        if idx % 10 == 3 and d.get("kind") == "tree":
+            # two trees, one after the other in one process, on *different* objectives with result caching switched on
+            # (FunctionProblem(use_cache=True)), same seed / box / engines: a benchmark loop over several functions
+            rng = gen.case_rng(self.prop, seed, idx, "cache")
+            d["use_cache"] = True
+            d["options"]["random_seed"] = rng.randint(0, 10**6)
+            other = rng.choice([f for f in gen.FAMILIES if f != d["obj"]["fam"] and f != "constant"])
+            d["second_objective"] = gen.gen_objective(rng, len(d["box"]["bounds"]), other)
+        return d
+
+    def run_case(self, desc):
+        res = super().run_case(desc)
+        if desc.get("second_objective"):
+            d2 = dict(desc)
+            d2["obj"] = desc["second_objective"]
+            d2.pop("second_objective")
+            r2 = super().run_case(d2)
+            res["cov"].update(r2["cov"])
+            res["cov"]["C02.cached_problem_pairs"] += 1
+            for v in r2["violations"]:
+                v = dict(v)
+                v["detail"] = dict(v.get("detail", {}), second_cached_problem_in_the_same_process=True)
+                res["violations"].append(v)
+        return res
+
     def floors(self, tier):
         return [
+            ("C02.cached_problem_pairs", 3, "pairs of cached problems with different objectives in one process"),
             ("C02.local_deme_with_3_iterates", 1, "local deme with >=3 recorded iterates"),
             ("C02.generations_with_carried_and_new", 1, "generation with carried-over individuals"),
             ("C02.sentinel_seen", 1, "sentinel values stored"),
@@ -212,6 +272,7 @@ class C02(RunSpec):
 @register
 class C03(RunSpec):
     prop = "C03"
+    reuse_every = 6
     rule = (
         "seeded random tree configurations and minimize(maxfun=N) calls; counters compared with the recorder at every GSC "
         "consultation; distinct non-trivial = distinct (engine mix, stack shape) with >=10 consultations at which >=2 demes had non-zero counts"
@@ -291,6 +352,7 @@ class C04(RunSpec):
 @register
 class C05(RunSpec):
     prop = "C05"
+    reuse_every = 9
     rule = (
         "seeded random tree configurations over every shipped global stop condition, limits placed so that the first 'true' "
         "falls after varied generations of varied demes; distinct non-trivial = distinct (GSC class, engine of the in-flight deme or boundary kind, demes still to run)"
@@ -320,6 +382,8 @@ class C05(RunSpec):
     def run_case(self, desc):
         from . import harness
 
+        if desc.get("reuse"):
+            return run_desc(desc, lambda: [m() for m in self.monitors])
         if desc.get("target"):
             desc = self._retarget(desc)
         ctx = harness.run_case(desc, [m() for m in self.monitors])
@@ -405,6 +469,7 @@ class C05(RunSpec):
 @register
 class C06(RunSpec):
     prop = "C06"
+    reuse_every = 8
     soak_every = 25
     rule = (
         "seeded random tree configurations over every local stop condition (incl. user-defined and DontRun), CMA-ES leaves "
@@ -450,6 +515,7 @@ class C06(RunSpec):
 @register
 class C07(RunSpec):
     prop = "C07"
+    reuse_every = 7
     soak_every = 25
     rule = (
         "seeded random tree configurations of 1-3 levels incl. the custom deme class and user-composed mechanisms; "
@@ -481,6 +547,7 @@ class C07(RunSpec):
 @register
 class C08(RunSpec):
     prop = "C08"
+    reuse_every = 6
     soak_every = 25
     rule = (
         "seeded random tree configurations with level limits 1-4, several parents and several candidates per parent, LSCs "
@@ -515,6 +582,7 @@ class C08(RunSpec):
 @register
 class C09(RunSpec):
     prop = "C09"
+    reuse_every = 5
     rule = (
         "seeded random tree configurations with FarEnough / NBC_FarEnough mechanisms, long enough that siblings move after "
         "their centroid was first read; distinct non-trivial = distinct (sibling engine, filter, moved-more-than-threshold yes/no) with >=1 decision"
@@ -654,6 +722,7 @@ class C12(RunSpec):
 @register
 class C18(RunSpec):
     prop = "C18"
+    reuse_every = 8
     soak_every = 25
     rule = (
         "seeded random 2- and 3-level tree configurations with hibernation on (and off as control), both mechanisms, level limits "
